@@ -310,8 +310,21 @@ func (n *AbsfsNFS) UpdatePolicyOptions(newPolicy PolicyOptions) error {
 		rc := *newPolicy.RateLimitConfig
 		snapshot.RateLimitConfig = &rc
 	}
+	// A running listener keeps the tls.Config built in Listen, which reads the
+	// certificate from the cell of the TLS settings stored then. Keep that cell,
+	// and the settings themselves when the update carries none, so that
+	// GetExportOptions().TLS.ReloadCertificates() still reaches the listener.
 	if newPolicy.TLS != nil {
 		snapshot.TLS = newPolicy.TLS.Clone()
+		if old.TLS != nil {
+			old.TLS.mu.RLock()
+			if old.TLS.currentCert != nil {
+				snapshot.TLS.currentCert = old.TLS.currentCert
+			}
+			old.TLS.mu.RUnlock()
+		}
+	} else {
+		snapshot.TLS = old.TLS
 	}
 	n.policy.Store(&snapshot)
 
